@@ -7,7 +7,6 @@ from ..core import Run, AnalysisError, dotted, norm
 from ..dim import World
 from ..flow import CFG, Fn, node_calls, conditions_for, stmt_of
 from .collectors import CE, run_collector_rules, homomorphism, returned_pairs, _fn, ops_in_slice, sum_like_discipline, same_exponent
-from .c05 import sum_like_rules, _has_raise_under, _calls
 
 EXPLANATION = (
     "Structural necessary conditions of the symbolic collector (collect_expression.py) and of the wrappers that use it: "
@@ -20,6 +19,32 @@ EXPLANATION = (
 ASSUMPTIONS = ["SymPy's expression tree API; equivalent_dims / is_dimensionless", "value-level arithmetic beyond operator kind is not examined"]
 TRUSTED = ["sympy expression tree API", "python ast"]
 
+
+
+def _has_raise_under(fn: ast.FunctionDef, pred) -> bool:
+    scopes = [fn] + [x for x in ast.walk(fn) if isinstance(x, ast.FunctionDef) and x is not fn]
+    for sc in scopes:
+        for r in [x for x in ast.walk(sc) if isinstance(x, ast.Raise)]:
+            conds = conditions_for(sc, r) or []
+            if any(not isinstance(t, str) and pred(t, p) for t, p in conds):
+                return True
+    return False
+
+
+def _calls(e: ast.AST) -> list[str]:
+    return [dotted(c.func) or "" for c in ast.walk(e) if isinstance(c, ast.Call)]
+
+
+def sum_like_rules(run: Run, mod, fn: ast.FunctionDef, label: str) -> None:
+    run.ob("S3", f"{mod.name}:{label}:any-dimension")
+    anyd = [c for c in ast.walk(fn) if isinstance(c, ast.Call) and dotted(c.func) == "is_any_dimension"]
+    operands = {norm(c.args[0]) for c in anyd if c.args}
+    if len(operands) < 2:
+        run.violate("S3", f"{mod.name}:{label}:any-dimension", mod, fn,
+                    f"the {label} handler consults the any-dimension escape for {sorted(operands) or 'no operand'}: a zero/infinite/NaN term on the other side is refused wrongly")
+    run.ob("S3", f"{mod.name}:{label}:equivalence")
+    if not _has_raise_under(fn, lambda t, p: "dimsys_SI.equivalent_dims" in _calls(t) and ((isinstance(t, ast.UnaryOp) and isinstance(t.op, ast.Not) and p is True) or (not isinstance(t, ast.UnaryOp) and p is False))):
+        run.violate("S3", f"{mod.name}:{label}:equivalence", mod, fn, f"the {label} handler no longer refuses operands whose dimensions fail dimsys_SI.equivalent_dims")
 
 def check(run: Run) -> None:
     run.rule("S1", "every child of the node is passed, itself, to the recursive collector on every path of its handler; all parts of the split reach the result")
